@@ -292,7 +292,7 @@ def run_scenario(sc, timeout=40):
         if sc["reconf"].get("warmup"):
             # one call under the build-time configuration first (outcome irrelevant; under control so that it ends)
             control.run_controlled(lambda: asyncio.run(d()) if sc["is_async"] else d(),
-                                   control.Script(rng=random.Random(sc["script"]["seed"] + 1)), timeout=timeout)
+                                   control.Script(rng=random.Random(sc["script"].get("seed", 0) + 1)), timeout=timeout)
         apply_reconf(d, sc["reconf"])
     sel = sc.get("sel")
     if sel is None:
